@@ -4,7 +4,7 @@
 # copy of /repo with the seed's patch applied, using a scratch copy of /verif, so that /repo and /verif stay free.
 # Results: /tmp/mt/results.tsv (seed, check, rc, first violation line); merged into the meta files by tools/seed_merge.py.
 set -u
-MT=/tmp/mt
+MT=${MT:-/tmp/mt}
 rm -rf $MT/verif; mkdir -p $MT
 git -C /repo worktree remove --force $MT/repo 2>/dev/null; rm -rf $MT/repo
 git -C /repo worktree add --detach $MT/repo HEAD >/dev/null 2>&1 || exit 2
